@@ -1208,6 +1208,18 @@ def _make_es_wrapper(orig):
             if zs.size > 0:
                 if not (np.all(Us >= lbs) and np.all(Us <= ubs)):
                     w.violate("C18", "es-candidate-outside-box", "ES evaluated the acquisition outside the mesh-rounded box")
+                else:
+                    # the same clause against a box recomputed here (hard internal bounds rounded inward to the search
+                    # mesh), not read back from the optimiser
+                    sms = float(optim_state["search_mesh_size"])
+                    hlb = np.asarray(optim_state["lb"], dtype=float).reshape(-1)
+                    hub = np.asarray(optim_state["ub"], dtype=float).reshape(-1)
+                    with np.errstate(invalid="ignore"):
+                        rlb = np.where(np.isfinite(hlb), np.ceil(hlb / sms - 1e-9) * sms, -np.inf)
+                        rub = np.where(np.isfinite(hub), np.floor(hub / sms + 1e-9) * sms, np.inf)
+                    tolb = 1e-9 * sms
+                    if not (np.all(Us >= rlb[None, :] - tolb) and np.all(Us <= rub[None, :] + tolb)):
+                        w.violate("C18", "es-candidate-outside-box", "ES evaluated the acquisition outside the hard box rounded inward to the search mesh (recomputed)")
                 if w.violation_fn is not None:
                     Xs = w.b.var_transf.inverse_transf(Us)
                     nbad = sum(1 for i in range(Xs.shape[0]) if w.violation_fn(Xs[i]) > 0)
